@@ -76,17 +76,22 @@ class C06(IRProp):
             own = [i for i, x in enumerate(case.blocks) if x.get("func") == f]
             e0 = getattr(case, "entry_of", {}).get(f, own[0])
             has_code = lambda j: any(jj == j and kind == "c" for (jj, off, size, kind, owners) in obs["blocks"])
-            if has_code(e0):
-                want = [(e0, 0)]            # still there (possibly as a documented zero-sized block)
-            else:
-                # the entry block left the module: promotion of the physically next block when it is code of the same function
-                nxt = e0 + 1
-                if e0 in proxied:
+            cur = e0
+            while True:
+                if has_code(cur):
+                    want = [(cur, 0)]            # still there (possibly as a documented zero-sized block)
+                    break
+                # the entry block left the module: promotion of the physically next block when it is code of the same function -- and
+                # again when that block is deleted in turn (deletions are applied in address order, so each sees the promoted entry)
+                nxt = cur + 1
+                if cur in proxied:
                     want = []
-                elif nxt < len(case.blocks) and case.blocks[nxt]["kind"] == "c" and func_of[nxt] == f:
-                    want = [(nxt, 0)] if has_code(nxt) else None        # chains of deletions: left to the correspondence
-                else:
-                    want = []
+                    break
+                if nxt < len(case.blocks) and case.blocks[nxt]["kind"] == "c" and func_of[nxt] == f:
+                    cur = nxt
+                    continue
+                want = []
+                break
             got = obs["entries"].get(f)
             if want is not None and got != want:
                 bad.append(dict(what=f"entries of function {f}: {got}, expected {want}"))
